@@ -2,142 +2,173 @@
 
 ALL = [f'C{i:02d}' for i in range(1, 21)]
 
-# pid -> dict(level, text, note, technique, design_ref)
-CLAIMS = {
-    'C18': dict(level='proof', engine='tables',
-                text='Every clause is a universally quantified statement over a finite key set (118 elements x tabulated isotopes x '
-                     'charges x hydrogens); the check reads the tables of the current tree and enumerates the key set completely, '
-                     'one obligation per key, so a pass is a proof for this tree.',
-                note='Trusted: CPython, the IUPAC symbol list embedded in the check, regex extraction of the .pyx literal tables, the '
-                     'published bit layouts (5-bit pack isotope code, matcher word III bits 46..62), CachedMethods shim. 19 reference '
-                     'isotopes missing from the nuclide tables are recorded in known_findings.jsonl.',
-                technique='finite table lemmas by complete enumeration (engine T)'),
-    'C12': dict(level='proof', engine='pysym',
-                text='The two permutation tables are checked key by key against permutation parity / single-end exchange; the three sign '
-                     'translators are executed symbolically (real function objects, symbolic pairwise-distinct atom numbers, symbolic sign, every '
-                     'hydrogen slot shape) and every path is discharged by z3; the geometric sign functions are proved antisymmetric / mirror-odd '
-                     'over the reals. Agreement of SMILES marks and wedges with RDKit is a bounded stand-in (checks/b12.py), not proof.',
-                note='Trusted: CPython, z3 (BV + nlsat), pysym proxies; floats treated as reals; shapes (3/4 substituents, hydrogen slots) '
-                     'enumerated; RDKit as external oracle in the bounded part.',
-                technique='symbolic execution of the real functions with per-path SMT obligations + table lemmas (+ bounded RDKit comparison)'),
-    'C08': dict(level='proof', engine='pysym',
-                text='The real __eq__ of QueryElement, AnyElement, ListElement, AnyMetal, QueryBond and Bond are executed on proxy attribute '
-                     'values (symbolic atomic numbers on both sides, symbolic subsets for set-valued query attributes) and every path is '
-                     'discharged against an independently written predicate. SMARTS parsing and matching on molecules are a bounded stand-in.',
-                note='Trusted: CPython, z3, pysym proxies, reference non-metal list; assumption A-ring (ring-size sets used only through '
-                     'membership/disjointness). calc_labels and SMARTS text are covered by the bounded part (checks/b08.py).',
-                technique='symbolic execution of the real predicates with per-path SMT obligations (+ bounded SMARTS enumeration)'),
-    'C09': dict(level='proof', engine='pysym+cyx',
-                text='Per atom, bond and closure: the words built by the real regions of _cython_compiled_structure/_cython_compiled_query '
-                     '(cut from the current AST, run on proxies, all paths) equal the published layout; on layout words the mask test equals the '
-                     'documented clauses (which C08 proves __eq__ to be); the test expressions of the de-cythonised _isomorphism.pyx equal that '
-                     'mask test. The search skeleton of the compiled generator is compared with the Python matcher on bounded pairs only.',
-                note='Trusted: CPython, z3, pysym + LoopCut, the syntactic Cython translation (DESIGN 1.4), struct layout of x86-64. Documented '
-                     'layout limitations (unknown H count, Lv/Ts/Og merged, rings > 65, query H > 4) are probed and listed as known findings. '
-                     'Quick tier runs 6 of the 16 emptiness shapes of the query-word obligation, thorough all 16.',
-                technique='symbolic execution of AST-extracted regions + bit-level SMT lemmas over the de-cythonised matcher'),
-}
-
 B_NOTE = ('Bounded stand-in (engine B): contracts taken from the property statement are attached to the real functions and driven over enumerated / '
           'seeded domains with stated bounds; labelled bounded in the evidence, never counted as proved. ')
+F_NOTE = (' Engine F (cache coherence by frames over the AST of every covered mutator, restricted to the memoised values this property\'s own '
+          'observables read) adds one obligation per mutator x cached key: no value the observables read survives an edit it depends on.')
+U_NOTE = (' A contract whose function / statement region / table is not found in the addressed shape reports UNANCHORED (obligations not generated), '
+          'never a violation; the run then rests on the bounded part (exit 2 when there is none).')
 
-CLAIMS.update({
-    'C10': dict(level='proof', engine='cyx+pysym',
-                text='The two codec sources are de-cythonised on every run and executed on proxies: field-by-field round trip and published byte '
-                     'layout for all attribute values on enumerated shapes; inductive lemmas for the 12-bit pair stream (period 2) and the 3-bit '
-                     'order stream (period 8 + tails + flush); section offsets in the declared C types vs the published formula; role slices of '
-                     'reaction unpack/pack_len for all counts 0..255; float16 exhaustively over all finite half patterns. The 4200 published packs '
-                     'and corpus round trips through the real wrappers are the bounded part.',
-                note='Trusted: the syntactic Cython translation and its C runtime (DESIGN 1.4), CPython, z3/cvc5, zlib. Traversal agreement of '
-                     'encoder and decoder for arbitrary graphs is shape-bounded (enumerated shapes), composition of the lemmas is by hand.',
-                technique='symbolic execution of the de-cythonised codec (whole function + inductive region lemmas) with per-path SMT obligations'),
-    'C04': dict(level='other', engine='bounded', text=B_NOTE + 'Exhaustive grid of the property (13 elements x charge x radical x all multisets of <= 4 bonds, '
-                '1.6M real molecules) against an independent re-derivation from the raw element tables, a textbook lower-bound model and RDKit '
-                '(one-directional), totals against own sums and RDKit on the corpus.',
-                note='Trusted: oracles/o04_valence.py (re-derivation written from the table docstring), RDKit valence model for the organic subset. '
-                     'The table-compilation lemma and calc_implicit first-match proof of DESIGN are not built yet: no deductive obligations.',
-                technique='exhaustive bounded contract checking against an independent re-derivation (bounded stand-in)'),
-    'C05': dict(level='exploration', engine='bounded', text=B_NOTE + 'kekule/thiele/enumerate_kekule post-conditions on 164 ring templates x substitution '
-                'patterns in aromatic and Kekule spelling, corpus, repository test files, under renumbering.',
-                note='Trusted: RDKit (one-directional H/charge comparison), oracles/o05_*. Whole-algorithm relations of a backtracking search: no '
-                     'deductive obligation is within reach (DESIGN 5).', technique='bounded contract checking over a ring-system generator'),
-    'C06': dict(level='exploration', engine='bounded', text=B_NOTE + 'sssr post-conditions (count, simple cycles, GF(2) independence, minimum total size, '
-                'numbering-free size multiset) and ring marks on every connected graph <= 6 (quick) / <= 7 atoms and 8 atoms <= 3 rings (thorough), '
-                'random assemblies, macrocycles, corpus; the two recorded gaps detected on the graph by an exact oracle.',
+# pid -> dict(level, engine, text, note, technique)
+CLAIMS = {
+    'C01': dict(level='exploration', engine='bounded+pysym+frames',
+                text=B_NOTE + 'renumbering x insertion order x re-spelling (chython random writer, RDKit) relation on decorated atlas graphs (all n! numberings '
+                'for small n), a generator of symmetric spiro / fused / bridged ring systems and the corpus; collisions judged by an independent stereo-aware '
+                'isomorphism oracle; the two documented gaps decided by a symmetry oracle with predicates fixed in advance. Deductive parts (P): the hashed '
+                'tuples of Element.__hash__ / Bond.__hash__ are exactly the fields the mechanism names, for all values; one round of the whole real _morgan '
+                'function hashes the same tuple for every enumeration order of the neighbour dict (degree <= 3, symbolic invariants).' + F_NOTE,
+                note='Trusted: oracles/iso.py, o01_gaps.py, o01_stereo.py, o01_families.py, RDKit as second writer. That class ties occur only between '
+                     'automorphic atoms is a statement about all graphs and not decidable by contracts (DESIGN 5). 5 defect families are known findings.' + U_NOTE,
+                technique='bounded relational contract checking + symbolic execution of the real hash / refinement functions + frame analysis'),
+    'C02': dict(level='exploration', engine='bounded+pysym+frames',
+                text=B_NOTE + 'write -> read comparison atom by atom under the written order for all 32 format-option subsets, injectivity over enumerated '
+                'small graphs and all stereoisomers of sampled molecules. Deductive parts: writer/reader tables mutually inverse, closure numbers 1..99, every '
+                'element symbol (T); sign translation kernel reader(writer(sign)) = sign for every neighbour order (P, shared with C12).' + F_NOTE,
+                note='Trusted: oracles/o01_stereo.py, RDKit (secondary). Traversal and closure bookkeeping for all graphs: bounded only. 3 defect families known.' + U_NOTE,
+                technique='bounded round-trip contract checking + table lemmas + symbolic sign-translation kernel + frame analysis'),
+    'C03': dict(level='other', engine='pysym',
+                text='The raises-contract of the tokenizer is decided for every input string by finite-state induction: the real loop body is run on a '
+                     'representative of every reachable abstract state x character class until closure (one obligation per pair, ~470 000). What the text '
+                     'denotes is decided by the bounded stand-in: exhaustive token strings, grammar-generated strings, the corpus, single-edit corruptions, '
+                     'reaction and CXSMILES templates against a reference reader written from the OpenSMILES subset and RDKit.',
+                note='Trusted: the tokenizer abstraction (justified by a syntactic dependency check on the current source; when the check fails the steps '
+                     'count as bounded cases and only strings failing on the real function are reported), oracles/o03_refsmiles.py, RDKit as second '
+                     'opinion. 29 reader defect families are recorded as known findings.' + U_NOTE,
+                technique='inductive invariant by abstract-state fixpoint over the real loop body (+ bounded differential reading)'),
+    'C04': dict(level='other', engine='pysym+tables+frames',
+                text='calc_implicit / check_implicit are decided for EVERY element (118), charge -4..+4, radical flag and EVERY multiset of neighbour bonds: '
+                     'a finite abstraction of the neighbour multiset (explicit sum, number of aromatic bonds, capped counts of the keys the rules of that sum '
+                     'mention) and execution of the real functions on one representative per abstract class against an independent re-derivation from the raw '
+                     'tables (~176 000 obligations); soundness of the abstraction is checked syntactically on the current source. The compiled rule table equals '
+                     'the raw tables for all 118 elements (T). Totals (formula, charge, radical, mass) and RDKit agreement are the bounded part (exhaustive '
+                     'grids of 1.8M real molecules, corpus).' + F_NOTE,
+                note='Trusted: oracles/o04_valence.py (re-derivation written from the table docstring; a changed table row changes the reference too - table '
+                     'CONTENT is judged only by the textbook lower-bound model and RDKit in the bounded part), the syntactic dependency check. Level other: '
+                     'abstraction + exhaustive execution, not SMT.' + U_NOTE,
+                technique='finite abstraction + exhaustive execution of the real functions + table lemma + frame analysis (+ bounded grids vs RDKit)'),
+    'C05': dict(level='exploration', engine='bounded+frames',
+                text=B_NOTE + 'kekule / thiele / enumerate_kekule post-conditions (same molecule, only orders 1-3, no valence error, one aromatic form for all '
+                'Kekule forms, idempotence) on 164 ring templates x substitution patterns, 17 further input classes (radicals, onium, mis-drawn rings, every '
+                'repair rule, fusion heteroatoms, ring-size boundaries ...), options (buffer_size, fix_tautomers), call sequences, corpus and repository test '
+                'files, under renumbering and re-insertion.' + F_NOTE,
+                note='Trusted: RDKit (one-directional H/charge comparison), oracles/o05_*. Whole-algorithm relations of a backtracking search: no SMT '
+                     'obligation is within reach (DESIGN 5); F covers kekule, thiele and fix_resonance as mutators. 2 known findings, 2 repaired.' + U_NOTE,
+                technique='bounded contract checking over a ring-system generator + frame analysis of the conversions as mutators'),
+    'C06': dict(level='exploration', engine='bounded+pysym+frames',
+                text=B_NOTE + 'sssr post-conditions (count, simple cycles, GF(2) independence, minimum total size, numbering-free size multiset) and ring marks '
+                'on every connected graph <= 6 (quick) / <= 7 atoms and 8 atoms <= 3 rings (thorough), random assemblies, macrocycles, corpus; the two '
+                'recorded gaps detected on the graph by an exact oracle. Deductive (P): _canonic_ring is invariant under every rotation / reflection of the '
+                'ring, returns one of them and starts at the minimum (symbolic atom numbers, length 3-4 quick, 3-6 thorough).' + F_NOTE,
                 note='Trusted: networkx minimum_cycle_basis, oracles/o06_gaps.py (exact theta-subgraph oracle, cross-checked every run). Minimality of a '
-                     'heuristic for all graphs is not decidable by contracts.', technique='exhaustive small-graph enumeration with cycle-space oracles'),
-    'C11': dict(level='exploration', engine='bounded', text=B_NOTE + 'write -> read record equality for five writer/reader pairs, corrupted multi-record files '
-                'at every line and column, index access, repository test files, RDKit-written molblocks.',
-                note='Trusted: RDKit molblock writer/reader, plane-geometry oracle. 15 reader crash families are recorded as known findings.',
-                technique='bounded round-trip and fault-injection contract checking'),
-    'C15': dict(level='exploration', engine='bounded', text=B_NOTE + 'role-order independence, SMILES round trip of roles, exact dynamic labels against an '
-                'independent diff of the mapped sides, ground-truth centres from recorded edits, consistent renumbering, token-table injectivity.',
-                note='Trusted: oracles/o15_diff.py; C01 gap filter for canonical-string comparisons.', technique='bounded relational contract checking'),
-    'C17': dict(level='exploration', engine='bounded', text=B_NOTE + 'path set == independent simple-path enumerator, fragment multiplicities, count-capped '
-                'hashing, iterated neighbourhood hashing re-implemented independently, folded bit windows, invariance under renumbering and insertion order.',
-                note='Trusted: oracles/o17_ref.py, oracles/paths.py.', technique='bounded contract checking against independent enumerators'),
-    'C19': dict(level='other', engine='bounded', text=B_NOTE + '35 observables per molecule compared across 5 interpreter processes with different '
-                'PYTHONHASHSEED, first vs cached evaluation, original vs copies made before/after caching.',
-                note='Trusted: subprocess isolation. The hash-input typing (engine H) of DESIGN is not built yet.',
-                technique='bounded differential execution across processes and hash seeds'),
-    'C20': dict(level='exploration', engine='bounded', text=B_NOTE + 'both bridge directions against RDKit per atom/bond and by canonical SMILES, inverse '
-                'relations, renumbering, Kekule and aromatic forms.', note='Trusted: RDKit (external oracle, assumed contract on a dependency).',
-                technique='bounded contract checking against RDKit'),
-})
-
-CLAIMS.update({
+                     'heuristic for all graphs is not decidable by contracts.' + U_NOTE,
+                technique='exhaustive small-graph enumeration with cycle-space oracles + symbolic execution of the ring canonicaliser + frame analysis'),
+    'C07': dict(level='exploration', engine='bounded+pysym+frames',
+                text=B_NOTE + 'mapping multisets against an exhaustive reference enumerator (scope, automorphism filter, operators), structural contract of '
+                '_compile_query on every small pattern, lazy_product against itertools.product. Deductive (P): <, <=, >, >=, is_substructure, is_equal are '
+                'defined from mapping existence for all size pairs.' + F_NOTE,
+                note='Trusted: oracles/o07_ref.py (cross-checked against the brute-force enumerator every run). Completeness of the DFS matcher for all graph '
+                     'pairs is not within reach of contracts here (DESIGN 5). 4 known findings.' + U_NOTE,
+                technique='bounded contract checking against an exhaustive reference enumerator + symbolic operator lemmas + frame analysis'),
+    'C08': dict(level='proof', engine='pysym',
+                text='The real __eq__ of QueryElement, AnyElement, ListElement, AnyMetal, QueryBond and Bond are executed on proxy attribute values (symbolic '
+                     'atomic numbers on both sides, symbolic subsets for set-valued query attributes) and every path is discharged against an independently '
+                     'written predicate; the query setters accept exactly the documented ranges (T). SMARTS parsing and matching on molecules are a bounded stand-in.',
+                note='Trusted: CPython, z3, pysym proxies, reference non-metal list; assumption A-ring (ring-size sets used only through '
+                     'membership/disjointness). calc_labels and SMARTS text are covered by the bounded part (checks/b08.py). 13 known findings.' + U_NOTE,
+                technique='symbolic execution of the real predicates with per-path SMT obligations (+ bounded SMARTS enumeration)'),
+    'C09': dict(level='proof', engine='pysym+cyx+frames',
+                text='Per atom, bond and closure: the words built by the real regions of _cython_compiled_structure/_cython_compiled_query (cut from the '
+                     'current AST by content-anchored paths, run on proxies, all paths) equal the published layout; on layout words the mask test equals the '
+                     'documented clauses (which C08 proves __eq__ to be); the test expressions of the de-cythonised _isomorphism.pyx equal that mask test. The '
+                     'search skeleton of the compiled generator is compared with the Python matcher on bounded pairs only.' + F_NOTE,
+                note='Trusted: CPython, z3, pysym + LoopCut, the syntactic Cython translation (DESIGN 1.4), struct layout of x86-64. Documented layout '
+                     'limitations (unknown H count, Lv/Ts/Og merged, rings > 65, query H > 4) are probed and listed as known findings. Quick tier runs 6 of '
+                     'the 16 emptiness shapes of the query-word obligation, thorough all 16.' + U_NOTE,
+                technique='symbolic execution of AST-extracted regions + bit-level SMT lemmas over the de-cythonised matcher + frame analysis'),
+    'C10': dict(level='proof', engine='cyx+pysym+frames',
+                text='The two codec sources are de-cythonised on every run and executed on proxies: field-by-field round trip and published byte layout for '
+                     'all attribute values on enumerated shapes; inductive lemmas for the 12-bit pair stream (period 2) and the 3-bit order stream (period 8 + '
+                     'tails + flush); section offsets in the declared C types vs the published formula; role slices of reaction unpack/pack_len for all counts '
+                     '0..255; float16 exhaustively over all finite half patterns. The 4200 published packs and corpus round trips through the real wrappers are '
+                     'the bounded part.' + F_NOTE,
+                note='Trusted: the syntactic Cython translation and its C runtime (DESIGN 1.4), CPython, z3/cvc5, zlib. Traversal agreement of encoder and '
+                     'decoder for arbitrary graphs is shape-bounded (enumerated shapes), composition of the lemmas is by hand.' + U_NOTE,
+                technique='symbolic execution of the de-cythonised codec (whole function + inductive region lemmas) with per-path SMT obligations'),
+    'C11': dict(level='exploration', engine='bounded+tables',
+                text=B_NOTE + 'write -> read record equality for five writer/reader pairs (default and non-default writer / reader options, every reading '
+                'entry point, path / file / buffer inputs), corrupted multi-record files at every line and column, index access, repository test files, '
+                'RDKit-written molblocks and records re-spelled the way other programs write them. T: V2000 charge code tables mutually inverse.',
+                note='Trusted: RDKit molblock writer/reader, plane-geometry oracle, oracles/o11_*. Fixed-column text parsing is outside the SMT engines '
+                     '(string theories undecided, DESIGN 5). 15 reader defect families are known findings, 4 repaired.' + U_NOTE,
+                technique='bounded round-trip and fault-injection contract checking (+ table lemma)'),
+    'C12': dict(level='proof', engine='pysym+frames',
+                text='The two permutation tables are checked key by key against permutation parity / single-end exchange; the three sign translators are '
+                     'executed symbolically (real function objects, symbolic pairwise-distinct atom numbers, symbolic sign, every hydrogen slot shape) and '
+                     'every path is discharged by z3; the geometric sign functions are proved antisymmetric / mirror-odd over the reals. Agreement of SMILES '
+                     'marks and wedges with RDKit is a bounded stand-in (checks/b12.py), not proof.' + F_NOTE,
+                note='Trusted: CPython, z3 (BV + nlsat), pysym proxies; floats treated as reals; shapes (3/4 substituents, hydrogen slots) enumerated; RDKit as '
+                     'external oracle in the bounded part.' + U_NOTE,
+                technique='symbolic execution of the real functions with per-path SMT obligations + table lemmas (+ bounded RDKit comparison)'),
     'C13': dict(level='other', engine='frames',
-                text='Engine F proves cache coherence by frames over the real AST of every covered mutator: each write makes the cached keys whose derived '
+                text='Engine F decides cache coherence by frames over the real AST of every covered mutator: each write makes the cached keys whose derived '
                      'read-set contains the location stale, flushes clear them, every read inside a mutator and every exit must see no stale key (one '
                      'obligation per mutator x cache key, per read site, per kept key); the fix_stereo retry-loop lemma it relies on is proved by engine P; '
-                     'rollback restores every state slot and every constructor binds every slot (T). Histories against an independently rebuilt '
-                     'molecule are the bounded part. Level "other": the frame analysis is a sound-by-construction abstract interpretation with listed '
-                     'assumed frame facts, not an SMT proof; four mutators are outside its reach (listed in the evidence).',
+                     'the real __exit__ run on an instance with opaque slot values restores every state slot, every constructor binds every slot (T). '
+                     'Histories against an independently rebuilt molecule are the bounded part. Level "other": the frame analysis is a sound-by-construction '
+                     'abstract interpretation with listed assumed frame facts, not an SMT proof; five mutator groups are outside its reach (listed in the evidence).',
                 note='Trusted: frames/engine.py (abstract interpreter), attribute-name based location classification, the assumed frame facts in '
-                     'contracts/cache.py (order-8 class preserved by aromatisation/resonance, labels preserved by renaming/union, terminal hydrogens '
-                     'lie on no ring, changed-set guards). Hydrogen recalculation is covered by the bounded histories only.',
+                     'contracts/cache.py (order-8 class preserved by aromatisation/resonance, labels preserved by renaming/union, terminal hydrogens lie on no '
+                     'ring, changed-set guards). Hydrogen recalculation is covered by the bounded histories only.' + U_NOTE,
                 technique='typestate / frame analysis with ghost write-sets over the AST (+ SMT lemma, + bounded edit histories)'),
-    'C03': dict(level='other', engine='pysym',
-                text='The raises-contract of the tokenizer is proved for every input string by finite-state induction: the real loop body is run on a '
-                     'representative of every reachable abstract state x character class until closure (one obligation per pair). What the text denotes is '
-                     'decided by the bounded stand-in: exhaustive token strings, grammar-generated strings, the corpus and single-edit corruptions against '
-                     'a reference reader written from the OpenSMILES subset and RDKit.',
-                note='Trusted: the tokenizer abstraction (justified by a syntactic dependency check), oracles/o03_refsmiles.py, RDKit as second opinion. '
-                     '29 reader defect families are recorded as known findings.',
-                technique='inductive invariant by abstract-state fixpoint over the real loop body (+ bounded differential reading)'),
-    'C07': dict(level='exploration', engine='bounded', text=B_NOTE + 'mapping multisets against an exhaustive reference enumerator (scope, automorphism filter, '
-                'operators), structural contract of _compile_query on every small pattern, lazy_product against itertools.product.',
-                note='Trusted: oracles/o07_ref.py (cross-checked against the brute-force enumerator every run). Completeness of the DFS matcher for all graph '
-                     'pairs is not within reach of contracts here (DESIGN 5).', technique='bounded contract checking against an exhaustive reference enumerator'),
-    'C16': dict(level='exploration', engine='bounded', text=B_NOTE + 'frame post-condition wrapped around BaseReactor._patcher, _get_deleted against a reachability '
-                'oracle on every labelled small graph, identity templates, reactant order / numbering independence.',
-                note='Trusted: oracles/o16_deleted.py; C01 gap filter for canonical-string comparisons.', technique='bounded frame-contract checking'),
-})
-
-CLAIMS.update({
-    'C14': dict(level='exploration', engine='bounded', text=B_NOTE + 'conservation (heavy atoms, charge, hydrogens), validity, idempotence, explicify/implicify inverse, '
-                'renumbering equivariance on corpus molecules decorated with the functional-group spellings of the rule tables; every rule on its own '
-                'instantiated pattern; the documented input-output pairs of the repository test table.',
-                note='Trusted: oracles/o14_rules.py (rule instantiation). Rule-driven rewriting through the matcher: no deductive obligation is within reach '
-                     '(DESIGN 5); the cache discipline of these methods is covered by C13. 17 rule / resonance defect families are known findings.',
-                technique='bounded relational contract checking (conservation, idempotence, equivariance)'),
-})
-
-CLAIMS.update({
-    'C01': dict(level='exploration', engine='bounded+pysym', text=B_NOTE + 'renumbering x insertion order x re-spelling (chython random writer, RDKit) relation on '
-                'decorated atlas graphs (all n! numberings for small n) and the corpus, collisions judged by an independent stereo-aware isomorphism oracle, '
-                'the two documented gaps decided by a symmetry oracle with predicates fixed in advance. Deductive parts (engine P): the hashed tuples of '
-                'Element.__hash__ / Bond.__hash__ are exactly the fields the mechanism names, for all values; one _morgan refinement step is independent of '
-                'the neighbour enumeration order (degree <= 3).',
-                note='Trusted: oracles/iso.py, o01_gaps.py, o01_stereo.py, RDKit as second writer. That class ties occur only between automorphic atoms is a '
-                     'statement about all graphs and not decidable by contracts (DESIGN 5). 4 defect families are known findings.',
-                technique='bounded relational contract checking (+ symbolic frame lemmas on the invariants fed to the refinement)'),
-    'C02': dict(level='exploration', engine='bounded+pysym', text=B_NOTE + 'write -> read comparison atom by atom under the written order for all 32 format-option subsets, '
-                'injectivity over enumerated small graphs and all stereoisomers of sampled molecules. Deductive parts: writer/reader tables mutually inverse, '
-                'closure numbers 1..99, every element symbol (T); sign translation kernel reader(writer(sign)) = sign for every neighbour order (P, shared with C12).',
-                note='Trusted: oracles/o01_stereo.py, RDKit (secondary). Traversal and closure bookkeeping for all graphs: bounded only. 3 defect families known.',
-                technique='bounded round-trip contract checking (+ table lemmas and symbolic sign-translation kernel)'),
-})
+    'C14': dict(level='exploration', engine='bounded+frames',
+                text=B_NOTE + 'conservation (heavy atoms, charge, hydrogens), validity, idempotence, explicify/implicify inverse, renumbering equivariance on '
+                'corpus molecules decorated with the functional-group spellings of the rule tables and on charged heteroaromatics, for every keyword variant '
+                '(fix_tautomers, keep_kekule, keep_charge ...); every rule on its own instantiated pattern and on two geminal instances sharing the wildcard '
+                'atom under foreign numbering; the documented input-output pairs of the repository test table.' + F_NOTE,
+                note='Trusted: oracles/o14_*.py (rule instantiation). Rule-driven rewriting through the matcher: no SMT obligation is within reach (DESIGN 5). '
+                     '18 rule / resonance defect families are known findings.' + U_NOTE,
+                technique='bounded relational contract checking (conservation, idempotence, equivariance) + frame analysis'),
+    'C15': dict(level='exploration', engine='bounded+tables+pysym',
+                text=B_NOTE + 'role-order independence for 11 format specs, SMILES round trip of roles (8 written forms, reader options), exact dynamic labels '
+                'against an independent diff of the mapped sides, ground-truth centres from recorded edits (shared atoms, ring bonds, one-sided reactions), '
+                'consistent renumbering with overlapping / large numbers. Deductive: dynamic token tables injective and disjoint, is_dynamic <=> sides differ '
+                '(T); hashed tuples of the dynamic classes (P).',
+                note='Trusted: oracles/o15_diff.py, o15_ties.py; C01 gap filter for canonical-string comparisons. 3 known findings.' + U_NOTE,
+                technique='bounded relational contract checking + table lemmas'),
+    'C16': dict(level='exploration', engine='bounded',
+                text=B_NOTE + 'frame post-condition wrapped around BaseReactor._patcher, _get_deleted against a reachability oracle on every labelled small '
+                'graph, identity templates, masked atoms, spectator molecules, reactant order / numbering independence.',
+                note='Trusted: oracles/o16_deleted.py; C01 gap filter for canonical-string comparisons. Template application through the matcher: no '
+                     'deductive obligation within reach (DESIGN 5).', technique='bounded frame-contract checking'),
+    'C17': dict(level='exploration', engine='bounded+pysym+frames',
+                text=B_NOTE + 'path set == independent simple-path enumerator, fragment multiplicities, count-capped hashing, iterated neighbourhood hashing '
+                're-implemented independently, invariance under renumbering and insertion order. Deductive (P): the folded bit windows lie below the requested '
+                'length and follow active_bits for every 64-bit hash, lengths 2^1..2^20, active bits 1..8; identifier tuple fields.' + F_NOTE,
+                note='Trusted: oracles/o17_ref.py, oracles/paths.py.' + U_NOTE,
+                technique='bounded contract checking against independent enumerators + symbolic fold lemma + frame analysis'),
+    'C18': dict(level='proof', engine='tables',
+                text='Every clause is a universally quantified statement over a finite key set (118 elements x tabulated isotopes x charges x hydrogens); '
+                     'the check reads the tables of the current tree and enumerates the key set completely, one obligation per key, including the executed '
+                     'codec and both matchers per atom state, so a pass is a proof for this tree.',
+                note='Trusted: CPython, the IUPAC symbol list embedded in the check, regex extraction of the .pyx literal tables, the published bit layouts '
+                     '(5-bit pack isotope code, matcher word III bits 46..62), CachedMethods shim. 19 reference isotopes missing from the nuclide tables are '
+                     'recorded in known_findings.jsonl.' + U_NOTE,
+                technique='finite table lemmas by complete enumeration (engine T)'),
+    'C19': dict(level='other', engine='frames+bounded',
+                text='Engine H: every hash() argument in the anchored files is structurally typed as a tuple tree of int / bool / None (no str, bytes, float or '
+                     'identity-hashed object can reach an ordering decision; an argument the typing cannot see through is reported undecided).' + F_NOTE +
+                     ' ' + B_NOTE + '35 observables per molecule compared across 5 interpreter processes with different PYTHONHASHSEED, first vs cached '
+                     'evaluation, original vs copies made before/after caching.',
+                note='Trusted: subprocess isolation; declared attribute types of Element/Bond (their setters\' isinstance guards). Set-iteration tie-breaks '
+                     'depend on int values and insertion history only - bounded part.' + U_NOTE,
+                technique='structural typing of hash inputs + frame analysis + bounded differential execution across processes and hash seeds'),
+    'C20': dict(level='exploration', engine='bounded+tables+pysym',
+                text=B_NOTE + 'both bridge directions against RDKit per atom/bond and by canonical SMILES, inverse relations, renumbering and re-spelling, Kekule '
+                'and aromatic forms, lone atoms and H/charge grids, every dative donor element, RDKit-side variants (AddHs, mol blocks, other stereo atoms), 3D '
+                'conformers. Deductive: bond type maps mutually inverse (T), chiral-tag / sign translation kernel (P, shared with C12).',
+                note='Trusted: RDKit (external oracle, assumed contract on a dependency). 2 known findings.' + U_NOTE,
+                technique='bounded contract checking against RDKit + table lemmas + symbolic sign-translation kernel'),
+}
 
 NOT_BUILT = 'check under construction in this session - not claimed until its command exists and passes on the unchanged tree'
 
